@@ -1,5 +1,6 @@
 import HapVerif.Proofs.SecureFrame
 import HapVerif.Gen.Ip
+import HapVerif.Props.C07
 
 /-! # C05 - encrypted IP session framing is exact outbound and segmentation-proof inbound -/
 
@@ -231,5 +232,49 @@ example : Aead (fun _ _ p => p ++ List.replicate 16 0) (fun _ _ x => some (x.tak
 /-- tie to the source constants (regenerated on every run from `ip/connection.py`) -/
 theorem C05_gen_tie : Gen.Ip.secureChunk = 1024 ∧ Gen.Ip.TAG_LENGTH = 16 ∧ Gen.Ip.lenFormat = "H" ∧
     Gen.Ip.nonceFormat = "<LQ" := by decide
+
+/-! ## The secure session end to end: TCP reads -> frames -> HTTP/EVENT messages
+
+`SecureHomeKitProtocol.data_received` decrypts the frames that are complete and hands every decrypted block to
+`InsecureHomeKitProtocol.data_received` (the HTTP parser of C07), one call per block.  Composition of the two
+models: -/
+
+open HapVerif.Http in
+/-- what reaches the application from a sequence of TCP reads on a secure session: the decrypted blocks are fed to
+    the HTTP parser in order, one call per block; the result is the messages completed, the parser state (or its
+    error) and the frame state (`none` = a frame failed authentication and the session ended) -/
+def secureHttp (op : Opener) (s : St) (p : Http.P) (reads : List Bytes) :
+    (List Http.Msg × Except Http.Err Http.P) × Option St :=
+  let r := recvAll op s reads []
+  (Http.feedAll p r.1, r.2)
+
+open HapVerif.Http in
+/-- **End to end**: whatever HTTP responses and EVENT messages the accessory writes (any of the three framings, any
+    header spelling), however it cuts their bytes into encrypted blocks (any sizes - block boundaries anywhere
+    inside status lines, headers, chunk sizes, bodies), and however TCP cuts the ciphertext stream into reads
+    (inside length prefixes, ciphertexts, tags), the application receives exactly the messages written, in order,
+    byte-exact; the HTTP parser is left fresh, nothing is left in the frame buffer and the counter has advanced by
+    the number of blocks. -/
+theorem C05_secure_http_end_to_end (sl : Sealer) (op : Opener) (h : Aead sl op)
+    (ms : List (WMsg × Nat)) (hg : ∀ x ∈ ms, Good x.1 x.2)
+    (blocks : List Bytes) (hblocks : blocks.flatten = writeAll ms) (hb : ∀ b ∈ blocks, b.length < 65536)
+    (c : Nat) (r : Bytes) (rs : List Bytes) (hcut : r ++ rs.flatten = writeFrames sl c blocks) :
+    secureHttp op ⟨[], c⟩ {} (r :: rs) =
+      ((ms.map (fun x => x.1.msg x.2), .ok {}), some ⟨[], c + blocks.length⟩) := by
+  unfold secureHttp
+  rw [C05_inbound_correct sl op h blocks c hb r rs hcut]
+  simp only [C07.C07_written_stream_any_segmentation ms hg blocks hblocks]
+
+open HapVerif.Http in
+/-- and if a frame in the middle fails authentication, the application has received exactly the messages that the
+    genuine blocks before it complete - nothing from the bad frame or after it - and the session ends -/
+theorem C05_secure_http_bad_frame (sl : Sealer) (op : Opener) (h : Aead sl op) (good : List Bytes) (c : Nat)
+    (hb : ∀ b ∈ good, b.length < 65536) (n : Nat) (ct rest : Bytes) (hn : n < 65536)
+    (hct : ct.length = n + 16) (hbad : op (c + good.length) (natToLe 2 n) ct = none)
+    (r : Bytes) (rs : List Bytes)
+    (hcut : r ++ rs.flatten = writeFrames sl c good ++ (natToLe 2 n ++ ct ++ rest)) (p : Http.P) :
+    secureHttp op ⟨[], c⟩ p (r :: rs) = (Http.feedAll p good, none) := by
+  unfold secureHttp
+  rw [C05_bad_frame sl op h good c hb n ct rest hn hct hbad r rs hcut]
 
 end HapVerif.C05
